@@ -232,10 +232,18 @@ typedef map<string, i32> TM
 typedef binary TB
 typedef TP TTP
 typedef set<string> TSet
+typedef TI TTI
+typedef TS TTS
+typedef TE TTE
+typedef TL TTL
+typedef double TD
+typedef TD TTD
+typedef bool TBo
+typedef TBo TTBo
 """
 LEAF_VAL = {"bool": "true", "i8": "7", "i16": "7", "i32": "7", "i64": "7", "double": "1.5", "string": '"s"', "binary": '"b"', "E": "E.A", "P": '{"x": 1}',
             "TE": "E.B", "TP": '{"x": 2, "s": "t"}', "TI": "7", "TS": '"s"', "TL": "[1, 2]", "TM": '{"k": 1}', "TB": '"b"', "TTP": '{"x": 3}',
-            "TSet": '["a"]'}
+            "TSet": '["a"]', "TTI": "7", "TTS": '"s"', "TTE": "E.A", "TTL": "[3]", "TTD": "2.5", "TTBo": "true"}
 
 
 def ty_text(t):
@@ -275,13 +283,13 @@ def render_shape(c):
     return prelude_for(body) + body
 
 
-PRELUDE_DEPS = {"TE": ["E"], "TP": ["P"], "TTP": ["TP"]}
+PRELUDE_DEPS = {"TE": ["E"], "TP": ["P"], "TTP": ["TP"], "TTI": ["TI"], "TTS": ["TS"], "TTE": ["TE"], "TTL": ["TL"], "TTD": ["TD"], "TTBo": ["TBo"]}
 
 
 def prelude_for(body):
     """the definitions of PRELUDE the body refers to, and what those refer to: nothing else is in the file, so that
     whatever the body's types need (imports, helpers) is not provided by a bystander"""
-    need, todo = set(), [n for n in ("E", "P", "TE", "TP", "TI", "TS", "TL", "TM", "TB", "TTP", "TSet") if re.search(r"\b%s\b" % n, body)]
+    need, todo = set(), [n for n in ("E", "P", "TE", "TP", "TI", "TS", "TL", "TM", "TB", "TTP", "TSet", "TTI", "TTS", "TTE", "TTL", "TD", "TTD", "TBo", "TTBo") if re.search(r"\b%s\b" % n, body)]
     while todo:
         n = todo.pop()
         if n not in need:
